@@ -82,7 +82,7 @@ def extract(cfg, log=None):
     key = tree_hash(cfg)
     dest = os.path.join(CACHE, cfg + "-" + key)
     os.makedirs(CACHE, exist_ok=True)
-    lock = open(os.path.join(CACHE, ".lock-" + cfg), "w")
+    lock = open(os.path.join(CACHE, ".lock-%s-%s" % (cfg, key)), "w")
     fcntl.flock(lock, fcntl.LOCK_EX)
     try:
         if os.path.exists(os.path.join(dest, "OK")):
